@@ -1,3 +1,4 @@
+import PV.C20.Lemmas.ModelDriver
 import PV.C20.Lemmas.Canon
 /-! C20 helper lemmas — recursion equations of the model driver in the same shape, and the main lemma `parseM_eq_canonS`. -/
 namespace PV.C20
@@ -55,59 +56,48 @@ theorem parseM_rbrace (b : List Nat) (hb : b.head? ≠ some 125) : parseM (125 :
   rw [parseM_eq (125 :: b) (by simp), litRun_single 125 b (Or.inr rfl) hb]
   simp [parseSpec]
 
-/-- **main lemma**: on the domain the Rust splitter and CPython's parser produce the same part
-    sequence, or both reject. -/
-theorem parseM_eq_canonS (n : Nat) : ∀ t : List Nat, t.length ≤ n → domFrom .lit t = true →
-    parseM t = canonS t := by
+/-- **main lemma**: the Rust splitter and CPython's parser produce the same part sequence, or both
+    reject — for every template. -/
+theorem parseM_eq_canonS (n : Nat) : ∀ t : List Nat, t.length ≤ n → parseM t = canonS t := by
   induction n with
   | zero =>
-    intro t h _
+    intro t h
     have : t = [] := by cases t <;> simp_all
     subst this; rw [parseM_nil, canonS_nil]
   | succ n ih =>
-    intro t hlen hd
-    match t, hlen, hd with
-    | [], _, _ => rw [parseM_nil, canonS_nil]
-    | [c], _, _ =>
+    intro t hlen
+    match t, hlen with
+    | [], _ => rw [parseM_nil, canonS_nil]
+    | [c], _ =>
       by_cases hb : isBrace c
       · rw [canonS_single c hb]
         rcases hb with h | h
-        · subst h; rw [parseM_field [] (by simp)]; simp [parseSpec, parseSpecLoop]
+        · subst h; rw [parseM_field [] (by simp)]; simp [parseSpec, nameLoop]
         · subst h; exact parseM_rbrace [] (by simp)
       · rw [parseM_plain c [] hb, canonS_plain c [] hb, parseM_nil, canonS_nil]
-    | c :: d :: rest, hlen, hd =>
-      rw [domFrom] at hd
+    | c :: d :: rest, hlen =>
       simp at hlen
       by_cases h1 : c = 123
       · subst h1
         by_cases h2 : d = 123
         · subst h2
-          simp at hd
-          rw [parseM_esc 123 rest (Or.inl rfl), canonS_esc 123 rest (Or.inl rfl), ih rest (by omega) hd]
-        · simp [h2] at hd
-          have hf := field_eq (d :: rest) hd
-          rw [parseM_field (d :: rest) (by simpa using h2), canonS_field d rest h2, hf.1]
+          rw [parseM_esc 123 rest (Or.inl rfl), canonS_esc 123 rest (Or.inl rfl), ih rest (by omega)]
+        · rw [parseM_field (d :: rest) (by simpa using h2), canonS_field d rest h2, field_eq]
           cases hx : accepted (parseField (d :: rest)) with
           | none => simp
           | some p =>
             obtain ⟨f, r⟩ := p
-            have hdr := hf.2 f r hx
-            have hlr : r.length < (d :: rest).length := by
-              cases hy : parseField (d :: rest) with
-              | error e => simp [hy] at hx
-              | ok q => simp [hy] at hx; subst hx; exact parseField_length _ _ _ hy
+            have hlr := parseField_length _ _ _ ((accepted_eq_some _ _).mp hx)
             simp at hlr
             simp only [Option.bind_some]
-            rw [ih r (by omega) hdr]
+            rw [ih r (by omega)]
       · by_cases h2 : c = 125
         · subst h2
           by_cases h3 : d = 125
           · subst h3
-            simp at hd
-            rw [parseM_esc 125 rest (Or.inr rfl), canonS_esc 125 rest (Or.inr rfl), ih rest (by omega) hd]
+            rw [parseM_esc 125 rest (Or.inr rfl), canonS_esc 125 rest (Or.inr rfl), ih rest (by omega)]
           · rw [parseM_rbrace (d :: rest) (by simpa using h3), canonS_rbrace d rest h3]
-        · simp [h1, h2] at hd
-          have hb : ¬ isBrace c := by intro h; rcases h with h | h <;> contradiction
-          rw [parseM_plain c _ hb, canonS_plain c _ hb, ih (d :: rest) (by simp; omega) hd]
+        · have hb : ¬ isBrace c := by intro h; rcases h with h | h <;> contradiction
+          rw [parseM_plain c _ hb, canonS_plain c _ hb, ih (d :: rest) (by simp; omega)]
 
 end PV.C20
